@@ -267,7 +267,7 @@ type gen struct {
 }
 
 func genC10(o *vcoq.Out, r *vcoq.Rand, tier string) error {
-	o.Header = "From SC Require Import Base.Prelude Bus.Bus Bus.Pipe Bus.PipeJudge Bus.Res Bus.ResJudge Bus.ShapeJudge Bus.C10Judge."
+	o.Header = "From SC Require Import Base.Prelude Bus.Bus Bus.Pipe Bus.PipeHeld Bus.PipeJudge Bus.Res Bus.ResJudge Bus.ShapeJudge Bus.C10Judge."
 	o.CaseType = "c10case"
 	o.Judge = "judge"
 	o.Shard = 130
